@@ -178,3 +178,20 @@ OBLIGATIONS = [
     dict(id='C14.6', impl='constants', params='dummy: int', pre=['0 <= dummy <= 2 ** 52'], timeout=(30, 60),
          bounds='none', encodes=['s3transfer.utils constants'], assumptions=[]),
 ]
+
+_ALL = ['z3-4.8.12', 'z3-5.1', 'cvc5-1.0']
+LEMMAS = [
+    dict(id='L2', file='l2_unsat', expect='unsat', solvers=_ALL, timeout=(30, 120),
+         statement='for integers a, p and b >= 1: -((-a) div b) > p  <=>  a > p*b (QF_NIA, unbounded)'),
+    dict(id='L2b', file='l2b_unsat', expect='unsat', solvers=_ALL, timeout=(30, 120),
+         statement='the <=, >=, < companions of L2 used by CeilQuot'),
+    dict(id='L1-core-p53', file='l1core_unsat', expect='unsat', solvers=_ALL, timeout=(30, 120),
+         statement='linear core of L1 at binary64: a = m + r, r >= 1, m >= 0, a < 2^53  =>  m < 2^53'),
+    dict(id='L1-(5,11)', file='l1_5_11_unsat', expect='unsat', solvers=_ALL, timeout=(90, 300),
+         statement='IEEE (5,11): int(ceil(fl(a)/fl(b))) == ceil_int(a/b) for 0 <= a < 2^11, 1 <= b < 2^11 (QF_BVFP)'),
+    dict(id='L1-(5,11)-tight', file='l1_5_11_tight_sat', expect='sat', solvers=['z3-4.8.12', 'z3-5.1'], timeout=(60, 120),
+         statement='sensitivity control: the same statement with operands below 2^12 (beyond the significand) is '
+                   'falsifiable, so the encoding is not vacuous and the bound is tight'),
+    dict(id='L1-(6,14)', file='l1_6_14_unsat', expect='unsat', solvers=['z3-5.1'], timeout=(600, 900), tier='thorough',
+         statement='IEEE (6,14): same as L1-(5,11) with operands below 2^14'),
+]
